@@ -16,6 +16,8 @@ mod test_active;
 pub use active::{ConnectivityState, FdlActiveStation};
 pub use parameters::{Parameters, ParametersBuilder};
 pub(crate) use token_ring::TokenRing;
+#[cfg(feature = "verif-hooks")]
+pub use token_ring::TokenRing as VerifTokenRing;
 
 // Hide these for now until they get a cleaner interface
 #[doc(hidden)]
